@@ -1060,6 +1060,9 @@ func c36GenTable(rt *rapid.T, label, name string, db *c36DB, g *c36Gate) c36Tabl
 		}
 		t.cols = append(t.cols, col)
 	}
+	if g.format == "csv" && len(t.cols) == 1 {
+		t.cols[0].notNull = true
+	}
 	// a generated column over an int column
 	for ci, c := range t.cols {
 		if g.format == "" && c.typ.family == "int" && c.name != "pk" && rapid.IntRange(0, 4).Draw(rt, fmt.Sprintf("%s.gen%d", label, ci)) == 0 {
@@ -1663,6 +1666,8 @@ var c36FormatRestrictions = map[string][]string{
 		"csv is untyped text: an empty field is the only spelling of both NULL and '' (known a priori) - no empty strings, no empty SET values, no '' ENUM members in csv cases",
 		"csv is not used for binary columns (known a priori): no binary/varbinary/blob columns, no spatial columns (written as raw bytes), no BIT",
 		"encoding/csv (Go) drops a carriage return that precedes a line feed inside a quoted field: no CR in strings",
+		"encoding/csv skips empty lines: a table with a single column does not hold NULL (the row would be an empty line)",
+		"csv values are untyped strings: YEAR 0000 is written 0 and the string '0' means 2000 - no YEAR 0000",
 	},
 	"json": {
 		"JSON strings are Unicode text: no binary/varbinary/blob/bit/spatial columns (dolt writes invalid UTF-8 as U+FFFD, BLOB as base64 that the import does not decode)",
@@ -1707,7 +1712,7 @@ func c36FormatValueOK(format string, t *c36Type, v c36Val) bool {
 	has := func(tag string) bool { return c36HasTag(v.tags, tag) }
 	switch format {
 	case "csv":
-		if has("str_empty") || has("set_empty") || has("str_cr") {
+		if has("str_empty") || has("set_empty") || has("str_cr") || has("year_zero") {
 			return false
 		}
 		if t.family == "json" && strings.Contains(v.lit, "\\r") {
@@ -1735,6 +1740,8 @@ func c36FormatFallback(t *c36Type) c36Val {
 		return c36Val{lit: "1.5e0"}
 	case "decimal":
 		return c36Val{lit: "0", key: "d:0"}
+	case "year":
+		return c36Val{lit: "1901", key: "y:1901"}
 	case "json":
 		return c36Val{lit: "'{\"a\": [1, \"é\"]}'", tags: []string{"json_unicode"}}
 	}
